@@ -293,8 +293,14 @@ impl Header {
             9 => (PacketType::Suback, hd & FLAGS_MASK == 0),
             10 => (PacketType::Unsubscribe, hd & FLAGS_MASK == 0b0010),
             11 => (PacketType::Unsuback, hd & FLAGS_MASK == 0),
-            12 => (PacketType::Pingreq, hd & FLAGS_MASK == 0),
-            13 => (PacketType::Pingresp, hd & FLAGS_MASK == 0),
+            12 => (
+                PacketType::Pingreq,
+                hd & FLAGS_MASK == 0 && remaining_len == 0,
+            ),
+            13 => (
+                PacketType::Pingresp,
+                hd & FLAGS_MASK == 0 && remaining_len == 0,
+            ),
             14 => (PacketType::Disconnect, hd & FLAGS_MASK == 0),
             15 => (PacketType::Auth, hd & FLAGS_MASK == 0),
             _ => return Err(Error::InvalidHeader.into()),
